@@ -223,6 +223,9 @@ func someContext(r *prng) *structpb.Struct {
 	if r.Chance(1, 3) {
 		return nil
 	}
+	if r.Chance(1, 6) {
+		return &structpb.Struct{} // present on the wire, no fields
+	}
 	s, _ := structpb.NewStruct(map[string]any{
 		"x": float64(r.Intn(5) - 1), "s": pick(r, "abc", "zzz", ""), "ip": pick(r, "10.0.0.1", "192.168.0.1", "not-an-ip"),
 		"l": []any{"a", "b"}, "m": map[string]any{"k": 1.0}, "t": "2024-01-01T00:00:00Z", "d": "2s", "u": 3.0, "f": 1.5, "b": r.Bool(), "a": 1.0,
